@@ -280,13 +280,14 @@ theorem union_mk_eq (a b : List V) : FinSet.union (FinSet.mk a) (FinSet.mk b) = 
   simp [FinSet.mem_union, FinSet.mem_mk]
 
 /-- Concatenate against the specification: what both sides compute, before the builder -/
-theorem concat_spec (a b : Coll) :
+theorem concat_spec (a b : Coll) (hc : Impl.count a = Spec.card a.den) :
     Spec.concat a.den b.den =
       (match Spec.shiftMembers (Int.ofNat (Impl.count a)) b.members with
        | some ys => .ok (V.mkSet (a.members ++ ys))
        | none => .error .other) := by
   have hs := shift_den (Int.ofNat (Impl.count a)) b
-  simp only [Spec.concat, Impl.count] at hs ⊢
+  rw [hc] at hs ⊢
+  simp only [Spec.concat] at hs ⊢
   rw [hs]
   cases Spec.shiftMembers (Int.ofNat (Spec.card a.den)) b.members with
   | none => simp [Coll.den, V.mkSet]
@@ -300,88 +301,85 @@ theorem concat_impl (a b : Coll) :
   simp only [Impl.concat, shiftAll_eq]
   cases Spec.shiftMembers (Int.ofNat (Impl.count a)) b.members <;> rfl
 
+theorem shiftMember_none_indep (n n' : Int) (x : V) :
+    Spec.shiftMember n x = none ↔ Spec.shiftMember n' x = none := by
+  unfold Spec.shiftMember
+  cases x with
+  | tup as =>
+    simp only
+    cases h : as.lookup "@" with
+    | none => simp
+    | some v => cases v <;> simp
+  | _ => simp
+
+theorem shiftMembers_none_indep (n n' : Int) (l : List V) :
+    Spec.shiftMembers n l = none ↔ Spec.shiftMembers n' l = none := by
+  rw [shiftMembers_none, shiftMembers_none]
+  constructor
+  · rintro ⟨x, hx, h⟩; exact ⟨x, hx, (shiftMember_none_indep n n' x).1 h⟩
+  · rintro ⟨x, hx, h⟩; exact ⟨x, hx, (shiftMember_none_indep n n' x).2 h⟩
+
+/-- whether `++` fails does not depend on the count -/
+theorem concat_spec_none (a b : Coll) (n : Int) :
+    (Spec.concat a.den b.den).value? = none ↔ Spec.shiftMembers n b.members = none := by
+  have hs := shift_den (Int.ofNat (Spec.card a.den)) b
+  rw [shiftMembers_none_indep n (Int.ofNat (Spec.card a.den))]
+  simp only [Spec.concat]
+  rw [hs]
+  cases Spec.shiftMembers (Int.ofNat (Spec.card a.den)) b.members with
+  | none => simp [Coll.den, V.mkSet, Res.value?]
+  | some ys => simp [Coll.den, V.mkSet, Res.value?]
+
 /-! ## `>>` through the generic `case Set` loop -/
 
-theorem valueOk_isNum {name : String} {k w : V} (h : Spec.valueOk name k w = true)
-    (hn : name = "@char" ∨ name = "@byte") : isNum w = true := by
-  have hne : ("@byte" : String) ≠ "@char" := by decide
-  unfold Spec.valueOk at h
-  cases k with
-  | num i =>
-    rcases hn with rfl | rfl
-    · cases w <;> simp_all [isNum]
-    · cases w <;> simp_all [isNum]
-  | tup a => simpa [hn] using h
-  | set a => simpa [hn] using h
-
-theorem setLoop_of_mapMembers {f : F} {l ys : List V} (h : Spec.mapMembers f l = .ok ys) :
-    Impl.setLoop f l = .ok ys := by
-  induction l generalizing ys with
-  | nil => simp only [Spec.mapMembers, Except.ok.injEq] at h; subst h; rfl
+/-- the generic `case Set` loop IS the specification's member map in generic mode: same values,
+same errors, same order -/
+theorem setLoop_eq (f : F) (l : List V) : Impl.setLoop f l = Spec.mapMembers .generic f l := by
+  induction l with
+  | nil => rfl
   | cons x r ih =>
-    unfold Spec.mapMembers at h
-    cases h1 : Spec.mapMember f x with
-    | error e => rw [h1] at h; simp at h
-    | ok y =>
-      rw [h1] at h
-      cases h2 : Spec.mapMembers f r with
-      | error e => rw [h2] at h; simp at h
-      | ok zs =>
-        rw [h2] at h
-        simp only [Except.ok.injEq] at h; subst h
-        unfold Spec.mapMember at h1
-        unfold Impl.setLoop
-        cases hp : asPair x with
-        | none => rw [hp] at h1; simp at h1
-        | some p =>
-          obtain ⟨k, n, v⟩ := p
-          rw [hp] at h1
-          simp only at h1 ⊢
-          cases hf : f k v with
-          | error e => rw [hf] at h1; simp at h1
-          | ok w =>
-            rw [hf] at h1
-            simp only at h1 ⊢
-            split at h1
-            · rename_i hok
-              simp only [Except.ok.injEq] at h1; subst h1
-              have hnum : ¬ ((n = "@char" ∨ n = "@byte") ∧ isNum w = false) := by
-                rintro ⟨hn, hw⟩
-                exact absurd (valueOk_isNum hok hn) (by simp [hw])
-              rw [if_neg hnum, ih h2]
-            · simp at h1
-
-theorem setLoop_error {f : F} {l : List V} {e : Err} (h : Impl.setLoop f l = .error e) :
-    ∃ e', Spec.mapMembers f l = .error e' := by
-  induction l generalizing e with
-  | nil => simp [Impl.setLoop] at h
-  | cons x r ih =>
-    unfold Impl.setLoop at h
-    unfold Spec.mapMembers Spec.mapMember
+    unfold Impl.setLoop Spec.mapMembers Spec.mapMember
     cases hp : asPair x with
-    | none => exact ⟨_, rfl⟩
+    | none => rfl
     | some p =>
       obtain ⟨k, n, v⟩ := p
-      rw [hp] at h
-      simp only at h ⊢
+      simp only
       cases hf : f k v with
-      | error e' => exact ⟨_, rfl⟩
+      | error e => rfl
       | ok w =>
-        rw [hf] at h
-        simp only at h ⊢
-        by_cases hv : Spec.valueOk n k w = true
-        · rw [if_pos hv]
-          simp only
-          have hnum : ¬ ((n = "@char" ∨ n = "@byte") ∧ isNum w = false) := by
-            rintro ⟨hn, hw⟩
-            exact absurd (valueOk_isNum hv hn) (by simp [hw])
-          rw [if_neg hnum] at h
-          cases h2 : Impl.setLoop f r with
-          | error e' =>
-            obtain ⟨e'', he⟩ := ih h2
-            rw [he]; exact ⟨_, rfl⟩
-          | ok out => rw [h2] at h; simp at h
-        · rw [if_neg hv]; exact ⟨_, rfl⟩
+        simp only [Spec.valueOk]
+        by_cases hn : n = "@char" ∨ n = "@byte"
+        · by_cases hw : isNum w = true
+          · simp [hn, hw, ih]
+          · have hw' : isNum w = false := by simpa using hw
+            simp [hn, hw']
+        · simp [hn, ih]
+
+theorem bytesLoop_lt {f : F} {off : Int} {bs out : List Nat} (h : Impl.bytesLoop f off bs = .ok out) :
+    ∀ b ∈ out, b < 256 := by
+  induction bs generalizing off out with
+  | nil => simp only [Impl.bytesLoop, Except.ok.injEq] at h; subst h; simp
+  | cons b bs ih =>
+    unfold Impl.bytesLoop at h
+    cases hf : f (.num off) (.num (Int.ofNat b)) with
+    | error e => rw [hf] at h; simp at h
+    | ok w =>
+      rw [hf] at h
+      simp only at h
+      cases hv : Impl.validByte w with
+      | none => rw [hv] at h; simp at h
+      | some c =>
+        rw [hv] at h
+        simp only at h
+        cases hl : Impl.bytesLoop f (off + 1) bs with
+        | error e => rw [hl] at h; simp at h
+        | ok out' =>
+          rw [hl] at h
+          simp only [Except.ok.injEq] at h; subst h
+          intro x hx
+          rcases List.mem_cons.1 hx with rfl | hx
+          · exact (validByte_some hv).2
+          · exact ih hl x hx
 
 theorem seqArrow_set (f : F) (c : Coll) (h : c.isSugar = false) :
     Impl.seqArrow f c =
@@ -447,13 +445,41 @@ theorem all_wf_append (a b : List Bucket) :
     (a ++ b).all Bucket.wf = true ↔ a.all Bucket.wf = true ∧ b.all Bucket.wf = true := by
   simp [List.all_append]
 
+theorem nodup_dedup {α : Type} [DecidableEq α] (l : List α) : (dedup l).Nodup := by
+  induction l with
+  | nil => simp [dedup]
+  | cons x r ih =>
+    unfold dedup
+    split
+    · exact ih
+    · rename_i h; exact List.nodup_cons.2 ⟨h, ih⟩
+
+theorem eq_singleton_of_all_eq {α : Type} {l : List α} {a : α} (hne : l ≠ []) (hnd : l.Nodup)
+    (h : ∀ x ∈ l, x = a) : l = [a] := by
+  cases l with
+  | nil => exact absurd rfl hne
+  | cons x r =>
+    have hx := h x (by simp)
+    subst hx
+    cases r with
+    | nil => rfl
+    | cons y r' =>
+      have hy := h y (by simp)
+      subst hy
+      simp at hnd
+
 /-- SetBuilder.Finish establishes the invariants `call_refines` asks for -/
 theorem wf_build (xs : List V) : (Impl.build xs).wf = true := by
   apply wf_ofBuckets
   simp only [Impl.buckets, all_wf_append]
   refine ⟨?_, ?_, ?_, ?_, ?_, ?_⟩
   · split <;> simp [Impl.asString, Bucket.wf]
-  · split <;> simp [Impl.asBytes, Bucket.wf]
+  · split
+    · rfl
+    · simp only [Impl.asBytes, List.all_cons, List.all_nil, Bool.and_true, Bucket.wf, List.all_map,
+        List.all_eq_true, Function.comp_apply, decide_eq_true_eq]
+      intro o _
+      exact Nat.mod_lt _ (by decide)
   · split <;> simp [Impl.asArray, Bucket.wf]
   · split
     · rfl
@@ -471,13 +497,23 @@ theorem wf_build (xs : List V) : (Impl.build xs).wf = true := by
       · rename_i hne _
         simp only [List.all_cons, List.all_nil, Bool.and_true, Bucket.wf, Bool.and_eq_true,
           Bool.not_eq_true', List.isEmpty_eq_false_iff, List.all_eq_true, mem_dedup]
-        refine ⟨?_, fun x hx => classify_other ((mem_othersOf xs x).1 hx).2⟩
-        intro he
-        have : ∀ y, y ∉ othersOf xs := fun y hy => by
-          have := (mem_dedup (othersOf xs) y).2 hy
-          rw [he] at this; simp at this
-        apply hne
-        simp only [List.isEmpty_iff]
-        exact List.eq_nil_iff_forall_not_mem.2 this
+        have hnil : dedup (othersOf xs) ≠ [] := by
+          intro he
+          have : ∀ y, y ∉ othersOf xs := fun y hy => by
+            have := (mem_dedup (othersOf xs) y).2 hy
+            rw [he] at this; simp at this
+          apply hne
+          simp only [List.isEmpty_iff]
+          exact List.eq_nil_iff_forall_not_mem.2 this
+        refine ⟨⟨hnil, fun x hx => classify_other ((mem_othersOf xs x).1 hx).2⟩, ?_⟩
+        rename_i hns
+        simp only [List.any_eq_true, decide_eq_true_eq]
+        apply Classical.byContradiction
+        intro hall
+        apply hns
+        exact eq_singleton_of_all_eq hnil (nodup_dedup _) (fun x hx => by
+          apply Classical.byContradiction
+          intro hx'
+          exact hall ⟨x, hx, hx'⟩)
 
 end Arrai.C05
